@@ -1046,6 +1046,67 @@ def overlap_coinciding_keys(world, stats):
     stats["coinciding_keys"] = "explored"
 
 
+def inflight(world, stats):
+    """a GET (one problem / the listing) is in flight - its database query parked - while the task it would report ends and
+    the task's result is stored; the response, produced afterwards, must not show the stored result of a strategy AND list
+    that very task as still running (the result is written only after the task has unregistered)."""
+    import threading
+    w = world
+    w.restore(EMPTY)
+    hist = seed_state(w, "logged-in")
+    c = w.clients["A"]
+    label = [("inflight", "GET in flight while the task it reports ends and its result is stored")]
+    for kind in ("list", "get"):
+        name = "fl" + kind
+        st, body = c.add(name, big_stable_code(MARK["A"], 14), "Naive")
+        w.requests += 1
+        if st // 100 != 2:
+            raise MachineryError("cannot add the large problem (%s)" % st)
+        w.stub.wait_for(lambda: len(w.stub.bg_writes) >= 1, timeout=120.0, what="parse write")
+        w.stub.apply_bg(0)
+        st, body = c.solve(name, "Stable")
+        w.requests += 1
+        if st // 100 != 2:
+            raise MachineryError("cannot start the long computation (%s %s)" % (st, body[:80]))
+        w.stub.mode = "hold_find"
+        box = {}
+
+        def ask():
+            box["r"] = c.list() if kind == "list" else c.get(name)
+        t = threading.Thread(target=ask)
+        t.start()
+        try:
+            w.stub.wait_for(lambda: len(w.stub.parked) >= 1, timeout=60.0, what="the query of the request in flight")
+            inside = len(w.stub.bg_writes) == 0      # the computation was still running when the request reached its query
+            w.stub.wait_for(lambda: len(w.stub.bg_writes) >= 1, timeout=300.0, what="the result write of the long computation")
+            w.stub.apply_bg(0)                        # the result is stored
+            w.stub.release(w.stub.parked[0])          # now the query is answered (it sees the stored result)
+            t.join(60)
+        finally:
+            w.stub.mode = "defer_bg"
+        w.requests += 1
+        stats["transitions"] += 3
+        if "r" not in box:
+            raise MachineryError("the request in flight got no response")
+        st, body = box["r"]
+        try:
+            d = json.loads(body)
+        except ValueError:
+            w.v("get-failed", "the %s request in flight is answered %s %r" % (kind, st, body[:100]), label)
+            continue
+        docs = d if isinstance(d, list) else [d]
+        for doc in docs:
+            if not isinstance(doc, dict) or doc.get("name") != name:
+                continue
+            stored = ((doc.get("acs_per_strategy") or {}).get("stable") or {}).get("type")
+            running = [t_ for t_ in doc.get("running_tasks", []) if t_.get("type") == "Solve" and t_.get("content") == "Stable"]
+            if inside:
+                stats["windows_observed"] = stats.get("windows_observed", 0) + 1
+            if stored == "Some" and running:
+                w.v("ended-task-listed-next-to-its-result", "the %s response shows the stored result of Stable for %s and lists %s as still running" % (kind, name, running), label)
+    stats["states"] += 2
+
+
 def overlap(world, stats):
     w = world
     hist = seed_state(w, "logged-in")
